@@ -48,7 +48,7 @@ func (s *mg) loadFields(n ast.Node, sname string) {
 			if typ.k == "bytes" && typ.name == "buffer" {
 				s.bufField[id.Name] = true
 			}
-			s.t.env[s.fvar(id.Name)] = typ
+			s.t.bind(s.fvar(id.Name), typ, token.NoPos)
 			s.declDepth[s.fvar(id.Name)] = 0
 		}
 	}
@@ -71,7 +71,7 @@ func (s *mg) addParams(d ast.Node, fl *ast.FieldList, body ast.Node) (binders []
 			if _, clash := s.t.env[id.Name]; clash {
 				s.fail(d, "parameter %s clashes with another variable", id.Name)
 			}
-			s.t.env[id.Name] = typ
+			s.t.bind(id.Name, typ, id.Pos())
 			s.declDepth[id.Name] = 0
 			s.useOpaque(typ)
 			types = append(types, typ)
@@ -186,7 +186,7 @@ func (s *mg) run() string {
 			}
 			for _, id := range f.Names {
 				s.named = append(s.named, id.Name)
-				s.t.env[id.Name] = typ
+				s.t.bind(id.Name, typ, id.Pos())
 				s.declDepth[id.Name] = 0
 				v := mgNilOf(typ)
 				if strings.HasPrefix(v, "?") {
